@@ -1,23 +1,37 @@
 (** Property C18 — the RDKit bridge keeps chemistry and puts coordinates on the right atoms.
     ONLY statements, each closed by [exact]; proofs in Geom/IndexMapProofs.v, ForwardMapProofs.v, CoordProofs.v.
 
-    Claimed as PARTIAL:
-    proved      (a) index plumbing of networkx_to_rdkit / embed_3d_via_rdkit (which node receives which RDKit
-                    atom's position), for BOTH write-back shapes, the current one selected by the GENERATED
-                    [embed_write_mode];
-                (b) the bead average of forward_map_molecule over Q, for BOTH denominators, the current one
-                    selected by the GENERATED [fm_avg_mode]; own-atoms dependence over any carrier;
-                (c) control flow of rdkit_to_networkx's conformer branch given the GENERATED [r2n_pos_arg_bound].
+    The code PROVED ABOUT is the repaired one (/repo commits 1640fc8 rdkit_to_networkx, ad63fe5 embed write-back by
+    node, 7b0d95e forward_map /sum(weights)); the shapes are re-read from the source on every run (Gen/GeomGen.v:
+    [embed_write_mode] = WriteByNodeKey, [fm_avg_mode] = DivBySum, [r2n_pos_arg_bound] = true) and the headline
+    theorems [C18_embed], [C18_forward_map], [C18_conformer] are stated for exactly those shapes, UNCONDITIONALLY:
+      (a) for every duplicate-free node list (any numbering, any iteration order) every node receives the position of
+          its own RDKit atom;
+      (b) every bead is translation-equivariant (weights not summing to zero) and depends only on its own atoms;
+      (c) rdkit_to_networkx with a conformer puts the position of atom i on node i and raises nothing.
+    The status theorems ([C18_embed_status] ...) are proved for EVERY value of the generated facts, so if the source
+    returns to a former shape the matching (partial + refuted) statement is selected and the headline theorems stop
+    compiling (broken obligation).  Kept as theorems about the former shapes: enumeration-index write-back correct IFF
+    the node list is [0..n-1] in order; /len equivariant IFF the weights sum to their number.
+
+    Claimed as PARTIAL only because RDKit is third party:
     NOT proved  (validated by execution only, tools/props/c18.py): element / charge / bond order / hydrogen
-                count through RDKit's C++, bonding distances after RDKit's embedding, numpy's float64
-                arithmetic (the float instance of ForwardMap is compared bit for bit on every run).
-    The full statement "for all orderings / all molecules with a conformer / all weights" is NOT provable for
-    the current code: [C18_embed_status], [C18_conformer_status], [C18_forward_map_status] contain the
-    refutations (known findings embed_index_not_key, r2n_conformer_unbound_name, fwd_weights_not_normalised). *)
+                count through RDKit's C++, bonding distances after RDKit's embedding, numpy's float64 arithmetic. *)
 From Coq Require Import List ZArith Bool QArith.
 From CGV Require Import Base.PyBase Geom.Num Gen.GeomGen Geom.IndexMap Geom.ForwardMap Geom.CoordDefs
      Geom.IndexMapProofs Geom.ForwardMapProofs Geom.CoordProofs.
 Import ListNotations.
+
+(** ---------- HEADLINE: the repaired code (the generated facts must have the repaired values for these to compile) *)
+Theorem C18_embed : forall nodes nrd, NoDup nodes -> (length nodes <= nrd)%nat ->
+  exists m, embed_model embed_write_mode nodes nrd = Ok m /\ on_own_atoms nodes m.
+Proof. exact coords_on_own_atom_nodekey. Qed.
+Theorem C18_forward_map : forall ws, ~ sum_weights numQ ws == 0 -> equivariant fm_avg_mode ws.
+Proof. exact forward_map_translation_sum. Qed.
+Theorem C18_conformer : forall has_conf natoms,
+  r2n_positions r2n_pos_arg_bound has_conf natoms
+  = Ok (if has_conf then map (fun i => (Z.of_nat i, i)) (seq 0 natoms) else []).
+Proof. exact r2n_bound_positions. Qed.
 
 (** node_to_idx is the enumeration of the node list: RDKit atom i <-> i-th node *)
 Theorem C18_node_to_idx_enumerates : forall nodes k i, NoDup nodes ->
@@ -82,6 +96,9 @@ Proof.
   - vm_compute. repeat split.
 Qed.
 
+Print Assumptions C18_embed.
+Print Assumptions C18_forward_map.
+Print Assumptions C18_conformer.
 Print Assumptions C18_node_to_idx_enumerates.
 Print Assumptions C18_coords_on_own_atom_enum.
 Print Assumptions C18_coords_on_own_atom_nodekey.
